@@ -109,7 +109,7 @@ def effect_of_call(contract, c, argvals, kind, exc_matches=None):
     return z3.Or(*alts) if alts else z3.BoolVal(False)
 
 
-def delegated(c, target_suffix, expected, kind=None, allow_before=(), changed_before=()):
+def delegated(c, target_suffix, expected, kind=None, allow_before=(), changed_before=(), changed_after=()):
     """The path made exactly one call to the function under contract whose name ends with target_suffix, with the expected
     argument values, from the pre-state, and ended in the state that call left (nothing else touched the state)."""
     from .model import sv_equiv as _eqv
@@ -126,7 +126,7 @@ def delegated(c, target_suffix, expected, kind=None, allow_before=(), changed_be
             continue
         d['argument.' + name] = c.eng.to_v(c.ctx, vals[name]) == (exp if isinstance(exp, z3.ExprRef) else c.eng.to_v(c.ctx, exp))
     before = [_eqv(st0.f[key], c.pre.f[key]) for key in st0.f if st0.f[key] is not c.pre.f[key] and key not in changed_before]
-    after = [_eqv(c.post.f[key], st1.f[key]) for key in st1.f if st1.f[key] is not c.post.f[key]]
+    after = [_eqv(c.post.f[key], st1.f[key]) for key in st1.f if st1.f[key] is not c.post.f[key] and key not in changed_after]
     d['called-from-the-pre-state'] = z3.And(*before) if before else z3.BoolVal(True)
     d['nothing-else-changes-the-state'] = z3.And(*after) if after else z3.BoolVal(True)
     return d
